@@ -76,6 +76,14 @@ def gen(tier, idx):
         fine = True
         n = (idx // len(SCEN)) * 2 + (1 if idx % len(SCEN) == 22 else 0)
         policy = 'wpos:%d:%d' % (1 + n % 10, [2, 3, 6, 9][(n // 10) % 4])
+        if idx % len(SCEN) == 22:
+            # three phases: the writer makes its staging directory (and maybe fills it), the reader lists, the writer renames the staging
+            # directory into place, the reader goes on with what it listed
+            # (the writer's fifth step is the rename)
+            # and the reader's listing is: one scandir, then a stat + lstat per directory found (the prior entries and the staging directory),
+            # then whatever it does with the list: the rename is placed right after that first pass, and one call before / after it)
+            kwalk = 1 + 2 * (nprior + 1)
+            policy = 'wrr:%d:%d' % [(1, kwalk), (4, kwalk), (2, kwalk), (1, kwalk + 1), (1, kwalk - 1), (3, kwalk)][(idx // len(SCEN)) % 6]
     # every third schedule runs its processes as forked children of one parent that has imported klepto (a process pool), the others as
     # separately started interpreters
     return dict(cfg=cfg, scen=sc, prior=prior, procs=procs, policy=policy, seed=r.randrange(10 ** 9), fine=fine, forked=(idx // len(SCEN)) % 3 == 1)
@@ -168,6 +176,25 @@ def run_schedule(case):
                 done1 = len([e for e in sched if e[0] == 1]); done0 = len([e for e in sched if e[0] == 0])
                 if 1 in live and done1 < kpos: i = 1
                 elif 0 in live and done0 < jw: i = 0
+                elif 1 in live: i = 1
+                else: i = live[0]
+            elif case['policy'].startswith('wrr:'):
+                # writer w1 steps; reader kr calls; writer UNTIL IT HAS RENAMED its staging directory into place; reader to its end; writer's rest
+                w1, kr = map(int, case['policy'][4:].split(':'))
+                done1 = len([e for e in sched if e[0] == 1]); done0 = len([e for e in sched if e[0] == 0])
+                renamed = any(e[0] == 0 and e[1] == 'rename' and 'K_.I_' in str(e[2]) for e in sched)       # (the rename OF the staging directory)
+                if 0 in live and done0 < 1 + w1: i = 0
+                elif 1 in live and done1 < 1 + kr: i = 1
+                elif 0 in live and not renamed: i = 0
+                elif 1 in live: i = 1
+                else: i = live[0]
+            elif case['policy'].startswith('wrw:'):
+                w1, kr, jw = map(int, case['policy'][4:].split(':'))
+                done1 = len([e for e in sched if e[0] == 1]); done0 = len([e for e in sched if e[0] == 0])
+                # (each process's 'start' is a step of its own)
+                if 0 in live and done0 < 1 + w1: i = 0
+                elif 1 in live and done1 < 1 + kr: i = 1
+                elif 0 in live and done0 < 1 + w1 + jw: i = 0
                 elif 1 in live: i = 1
                 else: i = live[0]
             elif case['policy'] == 'hold':
